@@ -202,9 +202,9 @@ class _deadline:
 _OPEN_QUICK = ["ttx/data/TestTTF.ttf", "ttx/data/TestOTF.otf", "ttLib/data/dot-cubic.ttf",
                "ttLib/data/IBMPlexSans-Bold.subset.otf", "ttLib/data/Test-Regular.ttf", "ttLib/data/duplicate_glyph_name.ttf"]
 _NATIVE = ["ttx/data/TestTTC.ttc", "ttx/data/TestTTCv2.ttc", "ttx/data/TestWOFF.woff", "ttx/data/TestWOFF2.woff2"]
-_OPEN_LARGE = ["ttLib/data/TestTTF-Regular.ttf", "ttLib/data/TestOTF-Regular.otf", "ttLib/data/TestVGID-Regular.otf",
-               "subset/data/Lobster.subset.ttx", "varLib/data/test_results/Build.ttx", "cffLib/data/TestSparseCFF2VF.ttx",
-               "ttx/data/TestTTF.ttx", "fontBuilder/data/test_var.ttf.ttx", "ttLib/data/TestTTF_normalizeLocation.ttf"]
+_OPEN_LARGE = ["ttLib/data/TestVGID-Regular.otf", "ttLib/data/I.ttf", "cffLib/data/TestSparseCFF2VF.ttx", "ttLib/data/varc-6868.ttf",
+               "ttLib/tables/data/Amstelvar-avar2.subset.ttf", "ttLib/tables/data/NotoSans-VF-cubic.subset.ttf", "voltLib/data/Nutso.ttf",
+               "subset/data/Lobster.subset.ttx", "fontBuilder/data/test_var.ttf.ttx"]
 FEA_DIR = "feaLib/data"
 DS_BUILD = ["varLib/data/Build.designspace", "varLib/data/BuildAvarSingleAxis.designspace", "varLib/data/TestNoOverwriteSTAT.designspace",
             "varLib/data/SparseMasters.designspace", "varLib/data/FeatureVars.designspace"]
@@ -348,7 +348,7 @@ def cases(tier, seed):
     # ---- clause 4 --------------------------------------------------------------------------
     fs_fonts = ["ttLib/data/dot-cubic.ttf", "ttx/data/TestTTF.ttf", "ttx/data/TestOTF.otf"]
     if T:
-        fs_fonts += ["ttLib/data/varc-ac00-ac01.ttf", "ttLib/data/TestTTF_normalizeLocation.ttf", "ttLib/data/I.otf",
+        fs_fonts += ["ttLib/data/varc-ac00-ac01.ttf", "ttLib/tables/data/NotoSans-VF-cubic.subset.ttf", "ttLib/data/I.otf",
                      "cffLib/data/TestSparseCFF2VF.ttx", "subset/data/Lobster.subset.otf"]
     fs_fonts = [p for p in fs_fonts if _exists(p)]
     for rel in fs_fonts:
@@ -358,7 +358,7 @@ def cases(tier, seed):
         for op in ops:
             parts = (12 if T else 8)
             for part in range(parts):
-                add("failsave-lines", font=rel, op=op, part=part, parts=parts, stride=1 if T else 3)
+                add("failsave-lines", font=rel, op=op, part=part, parts=parts, stride=1)
         for op in ("TTFont.save", "TTFont.save/woff2", "TTCollection.save", "subset.save_font"):
             add("failsave-compile", font=rel, op=op)
     return cs
@@ -382,7 +382,13 @@ def _flavours(rel):
         return _flav_cache[rel]
     from fontTools.ttLib import TTFont, TTCollection
 
-    base = corpus.font_bytes(rel)
+    try:
+        base = corpus.font_bytes(rel)
+    except Exception as e:
+        base = e
+        out = {"sfnt": e, "woff": e, "woff2": e, "ttc": e}
+        _flav_cache[rel] = out
+        return out
     out = {"sfnt": base}
     for fl in ("woff", "woff2"):
         try:
@@ -1347,6 +1353,8 @@ def run_canary_ufo(case, ctx, rnd):
             if _parsed(outcome):
                 ctx.nontrivial("u:%s:%s:%s" % (os.path.basename(rel)[:12], (target + st[0])[-20:], pname))
         ctx.note("clause3:ufo mutants", case["n"])
+        for o, n in outcomes.items():
+            ctx.note("clause3:ufo outcome %s" % o, n)
         ctx.sample = {"kind": "canary-ufo", "ufo": rel, "mutants": case["n"], "outcomes": outcomes}
     finally:
         sb.close()
@@ -1362,11 +1370,14 @@ def run_canary_cli(case, ctx, rnd):
     _cur["seen_mech"] = set()
     sb = Sandbox("l")
     try:
-        bases = ["ttx/data/TestTTF.ttx", "varLib/data/test_results/Build.ttx", "ttx/data/TestOTF.ttx"]
+        bases = ["ttx/data/TestTTF.ttx", "fontBuilder/data/test_var.ttf.ttx", "ttx/data/TestOTF.ttx"]
         bases = [b for b in bases if _exists(b)]
         outcomes = {}
         for k in range(case.get("part", 0) * case["n"], (case.get("part", 0) + 1) * case["n"]):
             rel = bases[(k // 2) % len(bases)]
+            if k % 2 == 0:
+                ttfs = [b for b in ("ttx/data/TestTTF.ttx", "ttLib/data/TestTTF-Regular.ttx", "subset/data/TestTTF-Regular.ttx") if _exists(b)]
+                rel = ttfs[(k // 2 // 3) % len(ttfs)] if ttfs else rel     # split dumps name files after outlined glyf glyphs
             with open(corpus.abspath(rel), encoding="utf-8") as f:
                 text = f.read()
             sites = [s for s in GT.xml_sites(text, 1) if s[0] in ("GlyphOrder/GlyphID@name", "name/namerecord#text",
@@ -1411,8 +1422,12 @@ def run_canary_cli(case, ctx, rnd):
                 ("ttx-cli split dump", _ttx_cli, ["-q", "-f", "-s", "-g", "-d", sb.out, font]),
                 ("ttx-cli dump", _ttx_cli, ["-q", "-f", "-o", os.path.join(sb.out, "dump.ttx"), font]),
             ]
-            if "fvar" in text:
-                runs.append(("instancer-cli", instancer.main, [font, "wght=400", "-o", os.path.join(sb.out, "inst.ttf"), "-q"]))
+            if "<fvar>" in text:
+                import re as _re2
+
+                m = _re2.search(r'<AxisTag value="([A-Za-z ]{4})"', text)
+                if m:
+                    runs.append(("instancer-cli", instancer.main, [font, "%s=drop" % m.group(1), "-o", os.path.join(sb.out, "inst.ttf"), "-q"]))
             for op, fn, args in runs:
                 ev, o, _ = _call(ctx, sb, fn, args)
                 judge_events(ctx, ev, sb, "ttx", op, cls, pname, wit)
